@@ -100,7 +100,7 @@ impl Property for C02 {
     }
     fn generate(&self, g: &mut SplitMix, k: &mut SplitMix, _tier: Tier) -> (Knobs, Value) {
         let knobs = Knobs::draw(k);
-        let id_style = *g.pick(&[0u8, 0, 0, 0, 1, 2, 3, 4]);
+        let id_style = *g.pick(&[0u8, 0, 0, 0, 0, 1, 2, 3, 4, 5, 6]);
         let u = universe_styled(id_style);
         SELF_INSERT_OK.store(true, std::sync::atomic::Ordering::Relaxed);
         let tree = gen_tree(g, &u, true);
@@ -223,6 +223,8 @@ fn scenario(w: Work) {
             if i % 4 == 3 || matches!(op, HOp::Clear) || i + 1 == w.ops.len() {
                 let mut ids = u.ids.clone();
                 ids.extend(u.dirs.iter().cloned());
+                // (unusual spellings make more directories: "x0." lives in a directory "x0")
+                ids.extend(world.model.tree.dirs.iter().filter(|d| !u.dirs.contains(*d) && !u.ids.contains(*d)).cloned());
                 // filler entries named by an operation are compared here, the others by the look-ups at the end
                 let named: Vec<String> = w.ops.iter().filter_map(|o| match o {
                     HOp::InsS(_, id, ..) | HOp::RemS(_, id) | HOp::TakeS(_, id) if id.starts_with("fill") => Some(id.clone()),
